@@ -183,9 +183,16 @@ class PrecedenceHarness(Harness):
     if has_spec:
       e.set_style(prop, v1)
     t = ex.real("t", 0)
+    eb = None
     if has_anim:
       ab, ae = ex.real("ab", 0), ex.real("ae", 0)
       e.add_animation_step(model.DiscreteAnimationStep(prop, ab, ae, v2))
+      if ex.boolean("own_begin"):
+        # the animated element starts at its own offset: step times are relative to it (TTML2: set is a child of the element)
+        eb = ex.real("eb", 0)
+        e.set_begin(eb)
+        if k != "region":
+          els["region"].set_begin(None)
     if has_init:
       doc.put_initial_value(prop, v3 if anc is None else v1 if not has_spec else v2)
     init_val = doc.get_initial_value(prop) if has_init else None
@@ -206,7 +213,8 @@ class PrecedenceHarness(Harness):
     if got_e is None:
       return  # pruned (display none etc.)
     got = got_e.get_style(prop)
-    active = And(zreal(ab) <= zreal(t), zreal(t) < zreal(ae)) if has_anim else False
+    off = zreal(eb) if eb is not None else RV(0)
+    active = And(off + zreal(ab) <= zreal(t), zreal(t) < off + zreal(ae)) if has_anim else False
     # expected by R-STYLE
     if has_spec:
       base = v1
@@ -287,6 +295,11 @@ class LengthHarness(Harness):
     doc.set_px_resolution(model.PixelResolutionType(width=w, height=h))
     c_ref = (RV(Fraction(100 / rows)), U.rh)
     px_ref = (RV(Fraction(100 / h)), U.rh)
+    decoy, dels = build_chain()
+    decoy.set_cell_resolution(model.CellResolutionType(rows=rows, columns=cols))
+    decoy.set_px_resolution(model.PixelResolutionType(width=w + 7, height=h + 13))
+    dels["p"].set_style(SP.FontSize, L(10, U.px))
+    call(ex, ISD.from_model, decoy, 0)
     levels = ["region", "p", "span"] if ex.tier == "quick" else ["region", "body", "div", "p", "span"]
     spec = {}
     for k in levels:
